@@ -10,13 +10,18 @@ from .common import torch
 from . import connections as cx
 
 
-def case(ckind, skind, dt, maxk, hetero, B, seed, steps=None, clear_at=None, bias=True):
+def case(ckind, skind, dt, maxk, hetero, B, seed, steps=None, clear_at=None, bias=True, raised_from=None):
     steps = steps or (2 * maxk + 6)
     dyadic = float(dt * 8).is_integer()
     # non-representable step times: the float32 product k*dt may exceed the double-precision maximum by one ulp,
     # so the supported maximum is one step larger than the largest delay used (delays stay "at most the maximum")
     delay = (maxk if dyadic else maxk + 1) * dt
-    conn = cx.mkconn(ckind, skind, dt, B, bias, delay, seed)
+    if raised_from is None:
+        conn = cx.mkconn(ckind, skind, dt, B, bias, delay, seed)
+    else:
+        # the supported maximum is established AFTER construction: built with a smaller maximum, raised through synapse.delay
+        conn = cx.mkconn(ckind, skind, dt, B, bias, raised_from * dt, seed)
+        conn.synapse.delay = delay
     twin = cx.mkconn(ckind, skind, dt, B, bias, None, seed).synapse  # undelayed synapse, same parameters
     g = torch.Generator().manual_seed(seed + 7)
     w = conn.weight.detach()
@@ -28,7 +33,7 @@ def case(ckind, skind, dt, maxk, hetero, B, seed, steps=None, clear_at=None, bia
     conn.delay = dsteps.to(torch.float32) * dt
     if ckind == "lateral":
         dsteps = dsteps * (1 - torch.eye(w.shape[0], dtype=torch.long))
-    inp = dict(conn=ckind, syn=skind, dt=dt, max_delay_steps=maxk, heterogeneous=hetero, B=B, seed=seed, clear_at=clear_at)
+    inp = dict(conn=ckind, syn=skind, dt=dt, max_delay_steps=maxk, heterogeneous=hetero, B=B, seed=seed, clear_at=clear_at, raised_from=raised_from)
     hist = []
     for t, x in enumerate(cx.drive(conn, B, steps, seed, rate=0.5)):
         if clear_at is not None and t == clear_at:
@@ -82,7 +87,15 @@ def sweep(tier="quick", seed=0, unsupported=()):
                 for hetero in (True, False):
                     cases += 1
                     add(case(ckind, skind, dt, maxk, hetero, 2, seed + 3))
-        cases += 2
+        cases += 4
+        # maximum delay raised after construction (from 1 step and from 0)
+        f = case(ckind, skind, 1.0, 4, True, 2, seed + 9, raised_from=1)
+        add(None if f is None else dict(f, what=f["what"] + "/maximum_delay_raised_after_construction"))
+        try:
+            f = case(ckind, skind, 0.5, 3, True, 2, seed + 11, raised_from=0)
+        except Exception as e:  # noqa: BLE001
+            f = {"what": f"C06/{ckind}/exception", "input": dict(conn=ckind, syn=skind, raised_from=0), "expected": "runs", "actual": f"{type(e).__name__}: {e}"}
+        add(None if f is None else dict(f, what=f["what"] + "/maximum_delay_raised_after_construction"))
         add(case(ckind, skind, 1.3, 4, True, 3, seed + 5, steps=16, clear_at=9))
         add(zero_delay_case(ckind, skind, 1.3, seed))
     return {"standins": [{"function": "delayed LinearDense/Direct/Lateral/Conv2D x 4 synapse kinds vs an undelayed twin synapse shifted by the per-synapse delay (zero before start / after clear), syncurrent view, all-zero delays vs no delay; float32 step times incl. 1.3, 0.1, 0.7", "domain": f"{cases} cases: dt in {dts}, max delay steps in {maxks}, heterogeneous/homogeneous", "cases": cases, "proved": False, "label": "bounded"}], "failures": failures}
@@ -102,7 +115,7 @@ def replay(contract, label, model, note=""):
 def replay_native(rp):
     i = rp["input"]
     if "max_delay_steps" in i:
-        f = case(i["conn"], i["syn"], i["dt"], i["max_delay_steps"], i["heterogeneous"], i["B"], i["seed"], clear_at=i.get("clear_at"), steps=16 if i.get("clear_at") else None)
+        f = case(i["conn"], i["syn"], i["dt"], i["max_delay_steps"], i["heterogeneous"], i["B"], i["seed"], clear_at=i.get("clear_at"), steps=16 if i.get("clear_at") else None, raised_from=i.get("raised_from"))
     else:
         f = zero_delay_case(i["conn"], i["syn"], i["dt"], 0)
     return {"reproduced": f is not None, "failure": f}
